@@ -27,7 +27,7 @@ MANIFEST = dict(
     note="Runtime-only (NOT proved): liveness under real message delay and loss (ClusteSyncSender retries once after 100 ms, "
          "requests are concurrent so per-pair FIFO order is an assumption), the 500 ms / 3 s / 12 s / 15 s timers, nodes with "
          "different live-node views.  gRPC clients are not available offline: the gRPC part stays at component level; "
-         "handle_naming_route is transcribed in the harness (tied to the source by a hash of the function text).  "
+         "handle_naming_route is transcribed in the harness for the light nodes and tied to the real function by replaying a node's events on a full in-process node through the REAL handle_naming_route (state and answers compared).  "
          "client_instance_set is taken as the index of the registry by client id (C11), re-checked at every dump.  Not judged "
          "in the process scenarios: expiry of instances whose client stopped beating (C13), unacknowledged operations.  "
          "Known findings: the gRPC anti-entropy compares key sets only (distro-diff-ignores-values); HTTP state transfers "
@@ -159,6 +159,21 @@ def gen_kill_rejoin(rng, n_nodes, length):
     # d comes back empty, pulls snapshots (first_query_snapshot), the others notice it again
     ops += [["restart", d], ["qsnap", d]] + deliver_rounds(ids, 3) + quiesce(ids) + [["dump"]]
     return {"kind": "kill", "nodes": ids, "ops": ops, "keys_of": keys_of, "dead": d}
+
+
+def gen_rejoin_then_kill(rng, n_nodes, length):
+    """node d restarts empty and learns the others' instances through SNAPSHOTS only (no batch, no
+    anti-entropy round afterwards); then node x dies: d, too, must drop the instances held by x's connections"""
+    ids = list(range(1, n_nodes + 1))
+    keys_of = dict((i, list(range(10 * i, 10 * i + 5))) for i in ids)
+    d = rng.choice(ids)
+    x = rng.choice([i for i in ids if i != d])
+    ops = client_ops(rng, ids, length, keys_of)
+    ops += [["reg", x, [x, 1], keys_of[x][0], rng.randrange(1, 50)]]
+    ops += quiesce(ids) + [["dump"]]
+    ops += [["restart", d], ["qsnap", d]] + deliver_rounds(ids, 3) + [["dump"]]
+    ops += [["kill", a, x] for a in ids if a != x] + [["dump"]]
+    return {"kind": "rejoin-kill", "nodes": ids, "ops": ops, "keys_of": keys_of, "dead": x, "rejoiner": d}
 
 
 def gen_stale(rng):
@@ -448,8 +463,8 @@ def run(chk, replay=None):
         return
     gh = glue_hash()
     if gh != GLUE_SHA:
-        chk.violation("handle_naming_route changed (hash %s, transcribed from %s): the delivery glue of the sync suite must be "
-                      "re-transcribed" % (gh, GLUE_SHA), {"broken": "translator", "file": "src/naming/cluster/mod.rs"}, False)
+        # not an alarm by itself: the transcription is tied to the real function behaviourally (route replay below)
+        chk.notes["handle_naming_route_text_changed"] = "hash %s, transcribed from %s" % (gh, GLUE_SHA)
 
     # ---- the real 3-process cluster scenarios run concurrently with the component-level scripts
     import nodelib
@@ -477,12 +492,26 @@ def run(chk, replay=None):
         cases.append(gen_converge(rng, rng.choice([2, 3, 3, 4]), rng.choice([15, 30, 50])))
     for _ in range(20 * scale):
         cases.append(gen_kill_rejoin(rng, rng.choice([3, 3, 4]), rng.choice([15, 30])))
+    for _ in range(8 * scale):
+        cases.append(gen_rejoin_then_kill(rng, rng.choice([2, 3, 3, 4]), rng.choice([10, 25])))
 
-    impl = lib.harness_run_parallel("sync", [{"nodes": c["nodes"], "ops": c["ops"]} for c in cases], shards=8)
+    # the node whose events are replayed through the REAL handle_naming_route on a full in-process node
+    for j, c in enumerate(cases):
+        if c["kind"] == "rejoin-kill":
+            c["route_check"] = c["rejoiner"]
+        elif c["kind"] in ("kill", "stale") or j % 3 == 0 or tier != "quick":
+            c["route_check"] = rng.choice([i for i in c["nodes"] if i != c.get("dead")])
+
+    def hcase(c):
+        d = {"nodes": c["nodes"], "ops": c["ops"]}
+        if c.get("route_check"):
+            d["route_check"] = c["route_check"]
+        return d
+    impl = lib.harness_run_parallel("sync", [hcase(c) for c in cases], shards=8)
     # a script that ran into the 3 s heartbeat of the node managers is re-run once (timing, not logic)
     for j, r in enumerate(impl):
         if r.get("r") == "ok" and (r.get("pings", 0) > 0 or r.get("elapsed_ms", 0) > 2500):
-            impl[j] = lib.harness_run("sync", [{"nodes": cases[j]["nodes"], "ops": cases[j]["ops"]}])[0]
+            impl[j] = lib.harness_run("sync", [hcase(cases[j])])[0]
 
     n_eval = 0
     nontrivial = set()
@@ -524,6 +553,19 @@ def run(chk, replay=None):
                                      % (nid, str(gv)[:120], str(want)[:120], diff), rep)
             if c["kind"] == "stale" and all(gv == want for gv in views.values()):
                 chk.notes["stale_not_reproduced"] = True
+        if c["kind"] == "rejoin-kill":
+            x = c["dead"]
+            before, after = r["dumps"][-2], r["dumps"][-1]
+            held = dict((n["id"], [i for i in n["reg"] if i["client"][0] == x]) for n in before["nodes"])
+            nontrivial.add(("rejoin-kill", len(c["nodes"]), x, c["rejoiner"], len(held.get(c["rejoiner"], []))))
+            for n in after["nodes"]:
+                if n["id"] != x:
+                    n_eval += 1
+                    left = [i for i in n["reg"] if i["client"][0] == x]
+                    if left:
+                        chk.classify("dead-node-clients", "node %d%s still holds instances of the dead node %d's clients: %s"
+                                     % (n["id"], " (rejoined, fed by snapshots only)" if n["id"] == c["rejoiner"] else "", x, left[:3]),
+                                     dict(small, node=n["id"]))
         if c["kind"] == "kill":
             d = c["dead"]
             live = [i for i in c["nodes"] if i != d]
@@ -553,6 +595,45 @@ def run(chk, replay=None):
                 if gview(n) != want_r:
                     chk.classify("rejoin", "after node %d rejoined, node %d answers %s, expected %s" % (d, n["id"], gview(n), want_r),
                                  dict(small, node=n["id"], got=gview(n), want=want_r))
+
+    # ---- the real handle_naming_route (full in-process node) vs the transcription the scripts are delivered by
+    n_route = 0
+    n_route_events = 0
+    for c, r in zip(cases, impl):
+        rt = r.get("route") if r.get("r") == "ok" else None
+        if not c.get("route_check") or rt is None:
+            continue
+        small = {"suite": "sync", "case": {"kind": c["kind"], "nodes": c["nodes"], "ops": c["ops"], "dead": c.get("dead"),
+                                             "route_check": c["route_check"]}}
+        if rt.get("panic") or "full" not in rt:
+            chk.violation("route replay failed on a script: %s" % str(rt)[:200], small, True)
+            continue
+        n_route += 1
+        n_eval += 1
+        full, light = rt["full"], rt["light"]
+        n_route_events += len(full.get("answers", []))
+        b = c["route_check"]
+        # property oracle on the full node: a peer this node has declared dead leaves no instance of its clients behind
+        dead = [p[0] for p in full["peers"] if not p[1]]
+        left = [i for i in full["reg"] if i["grpc"] and i["from"] in dead]
+        if left:
+            chk.classify("dead-node-clients", "full node %d (real handle_naming_route) still holds instances owned by connections of "
+                         "node(s) %s it has declared dead: %s" % (b, dead, left[:3]), dict(small, node=b, full=full))
+        # a full node remembers the metadata of an earlier registration of the same address ("priority metadata",
+        # Service::instance_metadata_map, kept for instance_metadata_time_out) and serves it again after a
+        # re-registration; the light nodes have no InstanceMetaManager.  Metadata is not among the fields C15 names
+        # (address, health, enabled state, weight): the payload is compared by weight here.
+        full = json.loads(re.sub(r'"w(\d+)m[^"]*etruehtrue"', r"\1", json.dumps(full)))
+        light = json.loads(re.sub(r'"w(\d+)m[^"]*etruehtrue"', r"\1", json.dumps(light)))
+        for fld in ("reg", "cset", "peers", "errors", "answers"):
+            if full.get(fld) != light.get(fld):
+                chk.violation("real handle_naming_route != the sync suite's transcription (%s of node %d after replaying its events): %s"
+                              % (fld, b, lib.diff_first(light.get(fld), full.get(fld))),
+                              dict(small, field=fld, transcription=light.get(fld), real=full.get(fld),
+                                   correspondence="harness/src/suites/sync.rs deliver = naming::cluster::handle_naming_route"), bool(left))
+                break
+    chk.cov["route_replays"] = n_route
+    chk.cov["route_replay_events"] = n_route_events
 
     # ---- model --------------------------------------------------------------------------------
     try:
